@@ -583,6 +583,21 @@ func (n *Node) PollP2P() {
 	n.drain()
 }
 
+// PollP2PBusy is PollP2P at a moment when the sync loop has not yet taken everything out of its input channels:
+// the oldest undelivered header and data events (if any) are back in the channels while the P2P stores are polled.
+func (n *Node) PollP2PBusy() {
+	hc, dc := n.M.VerifHeaderInCh(), n.M.VerifDataInCh()
+	if len(n.HeaderFIFO) > 0 {
+		hc <- n.HeaderFIFO[0]
+		n.HeaderFIFO = n.HeaderFIFO[1:]
+	}
+	if len(n.DataFIFO) > 0 {
+		dc <- n.DataFIFO[0]
+		n.DataFIFO = n.DataFIFO[1:]
+	}
+	n.PollP2P()
+}
+
 func (n *Node) drain() {
 	hc, dc := n.M.VerifHeaderInCh(), n.M.VerifDataInCh()
 	for {
